@@ -314,7 +314,9 @@ class Run:
         self.interfere = None      # dict(c=, h=, advs=[...]) applied inside the cache lock of a read request
         self.req_gets = {}         # per request: (collpath, href) -> derived tuple | None   (last _get)
         self.cfg = dict(cfg)
-        self.folder = tempfile.mkdtemp(prefix="rv-c13-")
+        # storage folders on tmpfs when there is one: thousands of small files, no need to wait for the disk
+        shm = "/dev/shm" if os.path.isdir("/dev/shm") and os.access("/dev/shm", os.W_OK) else None
+        self.folder = tempfile.mkdtemp(prefix="rv-c13-", dir=os.environ.get("VERIF_C13_TMP", shm))
         self.srv = impl.Server(self.conf_of(self.cfg), folder=self.folder)
         rstorage.CACHE_VERSION = VERS[self.cfg["ver"]]
         self.root = os.path.join(self.folder, "collection-root")
